@@ -519,6 +519,34 @@ impl Subject for STJAP {
     relocate!();
 }
 
+/// joins over futures without drop glue (outputs with drop glue)
+pub struct SJAN(pub JoinAll<NdFut<Plain>>);
+impl Subject for SJAN {
+    fn poll(&mut self, cx: &mut Context<'_>) -> PollOut {
+        match Pin::new(&mut self.0).poll(cx) {
+            Poll::Pending => PollOut::Pending,
+            Poll::Ready(v) => PollOut::Item(Out::Vec(v)),
+        }
+    }
+    fn obs(&self) -> Obs {
+        Obs::default()
+    }
+    relocate!();
+}
+pub struct STJAN(pub TryJoinAll<NdFut<Try>>);
+impl Subject for STJAN {
+    fn poll(&mut self, cx: &mut Context<'_>) -> PollOut {
+        match Pin::new(&mut self.0).poll(cx) {
+            Poll::Pending => PollOut::Pending,
+            Poll::Ready(v) => PollOut::Item(Out::ResVec(v)),
+        }
+    }
+    fn obs(&self) -> Obs {
+        Obs::default()
+    }
+    relocate!();
+}
+
 // ---- construction ------------------------------------------------------------------------------
 
 /// How a subject is built.
@@ -527,7 +555,7 @@ pub struct Cfg {
     /// bounded capacity / adapter limit n / argument of with_capacity
     pub cap: usize,
     /// collections: 0 = new(cap) resp. new(); 1 = with_capacity(cap) (unbounded only); 2 = collect(initial);
-    /// joins: 2 = outputs with drop glue, 3 = outputs without drop glue
+    /// joins: 2 = outputs with drop glue, 3 = outputs without drop glue, 4 = futures without drop glue
     pub ctor: u8,
     /// children present from the start (collect / join inputs / merge sources)
     pub initial: Vec<Plan>,
@@ -538,6 +566,9 @@ pub struct Cfg {
     pub up_plans: Vec<Plan>,
     pub up_hint: u8,
     pub up_infinite: bool,
+    /// collect() from an iterator whose size_hint lower bound is below its real length
+    #[serde(default)]
+    pub inexact_iter: bool,
 }
 
 fn initial_ids(cfg: &Cfg, role: Role) -> Vec<Cid> {
@@ -551,6 +582,15 @@ fn initial_ids(cfg: &Cfg, role: Role) -> Vec<Cid> {
             })
             .collect()
     })
+}
+
+/// `v.into_iter()`, optionally behind a filter that keeps everything but makes the size_hint lower bound 0
+fn it(v: Vec<Cid>, inexact: bool) -> Box<dyn Iterator<Item = Cid>> {
+    if inexact {
+        Box::new(v.into_iter().filter(|_| true))
+    } else {
+        Box::new(v.into_iter())
+    }
 }
 
 fn make_upstream<S: SKind>(cfg: &Cfg, limit: usize, ordered: bool) -> ScriptStream<S> {
@@ -581,7 +621,7 @@ pub fn build(subj: Subj, cfg: &Cfg) -> Box<dyn Subject> {
         Subj::UB => {
             if cfg.ctor == 2 {
                 let ids = initial_ids(cfg, Role::Fut);
-                Box::new(SUB(sut(|| ids.into_iter().map(ScriptFut::new).collect())))
+                Box::new(SUB(sut(|| it(ids, cfg.inexact_iter).map(ScriptFut::new).collect())))
             } else {
                 Box::new(SUB(sut(|| FuturesUnorderedBounded::new(cap))))
             }
@@ -589,7 +629,7 @@ pub fn build(subj: Subj, cfg: &Cfg) -> Box<dyn Subject> {
         Subj::UU => match cfg.ctor {
             2 => {
                 let ids = initial_ids(cfg, Role::Fut);
-                Box::new(SUU(sut(|| ids.into_iter().map(ScriptFut::new).collect())))
+                Box::new(SUU(sut(|| it(ids, cfg.inexact_iter).map(ScriptFut::new).collect())))
             }
             1 => Box::new(SUU(sut(|| FuturesUnordered::with_capacity(cap)))),
             _ => Box::new(SUU(sut(FuturesUnordered::new))),
@@ -598,7 +638,7 @@ pub fn build(subj: Subj, cfg: &Cfg) -> Box<dyn Subject> {
             if cfg.ctor == 2 {
                 let ids = initial_ids(cfg, Role::Fut);
                 let n = ids.len();
-                Box::new(SOB(sut(|| ids.into_iter().map(ScriptFut::new).collect()), n))
+                Box::new(SOB(sut(|| it(ids, cfg.inexact_iter).map(ScriptFut::new).collect()), n))
             } else {
                 let mut q = sut(|| FuturesOrderedBounded::new(cap));
                 if cfg.start_index != 0 {
@@ -610,7 +650,7 @@ pub fn build(subj: Subj, cfg: &Cfg) -> Box<dyn Subject> {
         Subj::OU => match cfg.ctor {
             2 => {
                 let ids = initial_ids(cfg, Role::Fut);
-                Box::new(SOU(sut(|| ids.into_iter().map(ScriptFut::new).collect())))
+                Box::new(SOU(sut(|| it(ids, cfg.inexact_iter).map(ScriptFut::new).collect())))
             }
             1 => {
                 let mut q = sut(|| FuturesOrdered::with_capacity(cap));
@@ -630,12 +670,12 @@ pub fn build(subj: Subj, cfg: &Cfg) -> Box<dyn Subject> {
         Subj::MB => {
             let ids = initial_ids(cfg, Role::Source);
             let n = ids.len();
-            Box::new(SMB(sut(|| ids.into_iter().map(ScriptStream::new).collect()), n))
+            Box::new(SMB(sut(|| it(ids, cfg.inexact_iter).map(ScriptStream::new).collect()), n))
         }
         Subj::MU => {
             if cfg.ctor == 2 {
                 let ids = initial_ids(cfg, Role::Source);
-                Box::new(SMU(sut(|| ids.into_iter().map(ScriptStream::new).collect())))
+                Box::new(SMU(sut(|| it(ids, cfg.inexact_iter).map(ScriptStream::new).collect())))
             } else {
                 Box::new(SMU(sut(MergeUnbounded::new)))
             }
@@ -666,17 +706,31 @@ pub fn build(subj: Subj, cfg: &Cfg) -> Box<dyn Subject> {
         Subj::JA => {
             let ids = initial_ids(cfg, Role::Fut);
             if cfg.ctor == 3 {
-                Box::new(SJAP(sut(|| join_all(ids.into_iter().map(ScriptFut::<PlainND>::new)))))
+                Box::new(SJAP(sut(|| join_all(it(ids, cfg.inexact_iter).map(ScriptFut::<PlainND>::new)))))
+            } else if cfg.ctor == 4 {
+                w(|x| {
+                    for &i in &ids {
+                        x.children[i as usize].no_drop_glue = true;
+                    }
+                });
+                Box::new(SJAN(sut(|| join_all(it(ids, cfg.inexact_iter).map(NdFut::<Plain>::new)))))
             } else {
-                Box::new(SJA(sut(|| join_all(ids.into_iter().map(ScriptFut::<Plain>::new)))))
+                Box::new(SJA(sut(|| join_all(it(ids, cfg.inexact_iter).map(ScriptFut::<Plain>::new)))))
             }
         }
         Subj::TJA => {
             let ids = initial_ids(cfg, Role::Fut);
             if cfg.ctor == 3 {
-                Box::new(STJAP(sut(|| try_join_all(ids.into_iter().map(ScriptFut::<TryND>::new)))))
+                Box::new(STJAP(sut(|| try_join_all(it(ids, cfg.inexact_iter).map(ScriptFut::<TryND>::new)))))
+            } else if cfg.ctor == 4 {
+                w(|x| {
+                    for &i in &ids {
+                        x.children[i as usize].no_drop_glue = true;
+                    }
+                });
+                Box::new(STJAN(sut(|| try_join_all(it(ids, cfg.inexact_iter).map(NdFut::<Try>::new)))))
             } else {
-                Box::new(STJA(sut(|| try_join_all(ids.into_iter().map(ScriptFut::<Try>::new)))))
+                Box::new(STJA(sut(|| try_join_all(it(ids, cfg.inexact_iter).map(ScriptFut::<Try>::new)))))
             }
         }
     }
